@@ -9,10 +9,11 @@ def refused(types, desc, cfg, max_sites):
     cls = load_class(desc["module"], desc["name"])
     target = fork(sym_int("site", 0, max_sites - 1))
     plan = {"target": target, "seen": 0, "what": None}
-    tree = mut_unit(types, desc["instrs"], desc["name"], cfg, False, plan)
+    tree = mut_unit(types, desc["instrs"], desc["name"], cfg, desc["entry"], plan)
     assume(plan["what"] is not None)
     obj = build(types, cls, desc["instrs"], tree)
     w = EoWriter()
+    w.string_sanitization_mode = desc["entry"]
     returned = True
     try:
         cls.serialize(w, obj)
@@ -24,9 +25,9 @@ def refused(types, desc, cfg, max_sites):
     # the oracle agrees that this object is invalid (guards against a vacuous mutation)
     ref_ok = True
     try:
-        ref_serialize(types, desc["instrs"], tree, False)
+        ref_serialize(types, desc["instrs"], tree, desc["entry"], desc["entry"])
     except RefInvalid:
         ref_ok = False
     check(not ref_ok, "O-xml also classifies the object as invalid")
-    check(w.string_sanitization_mode == False, "sanitisation mode restored after the refusal")
+    check(w.string_sanitization_mode == desc["entry"], "sanitisation mode restored after the refusal")
     reach("mutated:" + plan["what"].split(" ")[0])
